@@ -77,6 +77,17 @@ func (mr March) Run(c choice.Chooser, opt sim.Options) sim.Result {
 	if opt.Tier == "thorough" || mr.Fast {
 		maxBlocks = 4
 	}
+	// now and then a field that spans many blocks with few workers: more
+	// blocks than workers plus channel capacities
+	if (mr.Fast || opt.Tier == "thorough") && c.Intn("manyblocks", 6) == 5 {
+		w = 2 + c.Intn("manyblocks:workers", 2)
+		nb := 5 + c.Intn("manyblocks:n", 6)
+		length := float64(100*nb-60) / cpu
+		canvas.AddField(marching.Line(vector3.New(10/cpu, 30/cpu, 30/cpu), vector3.New(10/cpu+length, 30/cpu, 30/cpu), 3/cpu, 1))
+		shapes = append(shapes, fmt.Sprintf("long-line %d blocks", nb))
+		ns = 0
+		res.Count("probe:more-blocks-than-workers-and-buffers", 1)
+	}
 	for i := 0; i < ns; i++ {
 		// centre near a block boundary on the x axis for some shapes
 		var ctr vector3.Float64
